@@ -13,6 +13,7 @@ codecs:  uid      base-N, gen_uniqueid, _fmt_unique_name / app_name / app_unique
          payload  zkutils.put (-> _payload) / get_with_metadata
          ldap     Application / CellAllocation / Partition .to_entry / _remove_empty / .from_entry
 """
+import collections
 import json
 import string
 
@@ -610,7 +611,14 @@ def gen_event(rng, tier):
     while len(items) < n:
         r = rng.random()
         if r < 0.45:
-            items.append(_ev_item(rng))
+            it = _ev_item(rng)
+            prev = [i for i in items if i['k'] == 'event' and i['fam'] == it['fam']]
+            if prev and rng.random() < 0.3:
+                # another event of the same instance / server with the very same time stamp
+                p_ = rng.choice(prev)
+                it['obj'], it['when'] = p_['obj'], p_['when']
+                it['wf'] = _ev_wf(it)
+            items.append(it)
         elif r < 0.65:
             it = json.loads(json.dumps(base))
             names = EV_FIELDS[it['kind']]
@@ -755,6 +763,31 @@ def _ev_publish_name(fam, obj, when, src, etype, edata):
 
 def run_event(items, run, mon):
     import random as _random
+    published = collections.defaultdict(dict)       # (fam, obj) -> {node name: event}
+    try:
+        _run_event_items(items, run, mon, published, _random)
+    finally:
+        pass
+    # ---- monitor: the reader dispatches every event of an instance, also when several share a time stamp
+    from treadmill.trace.app import zk as azk
+    from treadmill.trace.server import zk as szk
+    for (fam, obj), names in published.items():
+        if len(names) < 2:
+            continue
+        cap = _Cap()
+        cls = azk.AppTraceLoop if fam == 'a' else szk.ServerTraceLoop
+        loop = cls(mock.Mock(), obj, cap)
+        try:
+            loop._process_events(sorted(names), None)                  # pylint: disable=protected-access
+        except ValueError:
+            continue
+        run.tags.add('event-batch')
+        if len(cap.events) != len(names):
+            mon.hit('event-batch-lost', 'trace._zk.TraceLoop._process_events',
+                    '%d events written for %s, %d read back: %r' % (len(names), obj, len(cap.events), sorted(names)))
+
+
+def _run_event_items(items, run, mon, published, _random):
     for it in items:
         if it['k'] == 'event':
             fam = it['fam']
@@ -794,6 +827,8 @@ def run_event(items, run, mon):
                                 '%r -> %r -> %r' % (exp, name, dev))
                     mon.inj('event-node:' + fam, 'trace.zk.publish', name,
                             [obj, it['when'], it['src'], etype] + [getattr(ev, x) for x in EV_FIELDS[it['kind']]])
+                    if dev is not None and dev == exp:
+                        published[(fam, obj)][name] = exp
                 vals = [v for v in it['f'].values()]
                 if any(v is None or v == '' or (isinstance(v, str) and any(c in v for c in '.:-')) or
                        (isinstance(v, int) and not isinstance(v, bool) and v < 0) for v in vals):
